@@ -27,6 +27,11 @@ BUDGET_S = {"quick": 90, "thorough": 1200}
 DECIDING = ["eci_ecef_roundtrip", "rigid", "lla_roundtrip", "lla_vs_ellipsoid", "sez_roundtrip", "sez_basis", "razel_radec",
             "rsw_ntw", "rotation_continuity", "leap_second_jump", "rot_identities", "skew", "day_of_year"]
 
+MANIFEST = {
+    "technique": "runtime monitoring: inverse / rigidity / definition relations evaluated on the real conversion functions over boundary-biased dates and states; Earth-rotation continuity monitor across calendar boundaries and leap seconds",
+    "level_text": "held on every generated (relation, date, state): conversion pairs mutually inverse within calibrated tolerances, position map a proper rotation, geodetic result on the ellipsoid normal, rotation angle = w*dt across minute/day/month/leap-day/year boundaries with the required 1 s jump at both leap seconds",
+    "level_note": "sampled inputs; ellipsoid constants and spin rate shared with the repository; EOP day steps accepted as continuous (1e-6 rad)",
+}
 D0 = datetime(2014, 1, 2)
 D1 = datetime(2022, 10, 1)
 LEAPS = [datetime(2015, 7, 1), datetime(2017, 1, 1)]  # 00:00:00 following an inserted leap second
